@@ -11,3 +11,5 @@ func (db *DB) verifEvent(name string, txid common.Txid) {}
 func (db *DB) verifMetaEvent(m *common.Meta) {}
 
 func (db *DB) verifAlloc(txid common.Txid, pgid common.Pgid, n int, fromFree bool) {}
+
+func (db *DB) verifRefused(txid common.Txid, n int) {}
